@@ -733,7 +733,8 @@ func c05Run(sc *c05Scenario, recs [][2]string, cfg c05Cfg) c05Res {
 	return res
 }
 
-// c05RaceSites : for every report of the race detector, the innermost frame of each of the two accesses
+// c05RaceSites : for every report of the race detector, the functions (innermost frame) of the two racing
+// accesses, as `funcA<->funcB @ fileA:line<->fileB:line`
 func c05RaceSites(stderr string) []string {
 	var sites []string
 	for _, block := range strings.Split(stderr, "==================") {
@@ -741,13 +742,14 @@ func c05RaceSites(stderr string) []string {
 			continue
 		}
 		inAccess := false
-		var locs []string
+		fn := ""
+		var funcs, locs []string
 		for _, l := range strings.Split(block, "\n") {
 			t := strings.TrimSpace(l)
 			switch {
 			case strings.HasPrefix(t, "Read at"), strings.HasPrefix(t, "Write at"), strings.HasPrefix(t, "Previous read at"),
 				strings.HasPrefix(t, "Previous write at"), strings.HasPrefix(t, "Atomic"), strings.HasPrefix(t, "Previous atomic"):
-				inAccess = true
+				inAccess, fn = true, ""
 			case strings.HasPrefix(t, "Goroutine "):
 				inAccess = false
 			case inAccess && strings.Contains(t, ".go:"):
@@ -762,12 +764,60 @@ func c05RaceSites(stderr string) []string {
 					loc = loc[:k]
 				}
 				locs = append(locs, loc)
+				funcs = append(funcs, fn)
+			case inAccess && fn == "" && t != "":
+				// the innermost frame: `module/pkg/obiiter.UnregisterPipe()`
+				fn = t
+				if k := strings.LastIndex(fn, "/"); k >= 0 {
+					fn = fn[k+1:]
+				}
+				if k := strings.IndexByte(fn, '('); k > 0 {
+					fn = fn[:k]
+				}
 			}
 		}
-		sort.Strings(locs)
-		sites = append(sites, strings.Join(locs, "<->"))
+		if len(funcs) == 2 && funcs[1] < funcs[0] {
+			funcs[0], funcs[1] = funcs[1], funcs[0]
+			locs[0], locs[1] = locs[1], locs[0]
+		}
+		sites = append(sites, strings.Join(funcs, "<->")+" @ "+strings.Join(locs, "<->"))
 	}
 	return sites
+}
+
+// c05BenignRace : races of the unchanged code base that were reviewed and cannot change a byte of the output
+// (they are counted, not reported; each one is proposed to the maintainers as a clean-up). Anything else the
+// detector reports is a failure of the property.
+func c05BenignRace(site string) string {
+	fs := strings.Split(strings.SplitN(site, " @ ", 2)[0], "<->")
+	if len(fs) != 2 {
+		return ""
+	}
+	all := func(pred func(string) bool) bool { return pred(fs[0]) && pred(fs[1]) }
+	switch {
+	case all(func(f string) bool { return f == "obiiter.RegisterAPipe" || f == "obiiter.UnregisterPipe" }):
+		// globalLockerCounter++ / --: a counter that is only printed by log.Debugln
+		return "pipe-registry-debug-counter"
+	case all(func(f string) bool {
+		for _, m := range []string{"Rebatch", "FilterEmpty", "DivideOn", "Distribute", "IFragments"} {
+			if f == "obiiter.IBioSequence."+m || strings.HasPrefix(f, "obiiter.IBioSequence."+m+".func") {
+				return true
+			}
+		}
+		return false
+	}):
+		// `iterator = iterator.SortBatches()` inside the goroutine vs `iterator.IsPaired()` in the caller: a one-word
+		// struct, and SortBatches has copied the paired flag before returning: both values give the same answer
+		return "captured-iterator-reassigned-to-its-sorted-self"
+	case all(func(f string) bool { return f == "obiformats.WriteSequencesToFile" || f == "obiformats.MakeOptions" }):
+		// `options = append(options, OptionCloseFile())` on the variadic slice shared by the writers obidistribute
+		// starts: every goroutine stores the same option in the same spare slot
+		return "shared-variadic-options-slice"
+	case all(func(f string) bool { return strings.HasPrefix(f, "obichunk.IUniqueSequence.func") }):
+		// `input, err = ISequenceSubChunk(…)` assigns the captured err of the enclosing function from every worker
+		return "obiuniq-captured-err"
+	}
+	return ""
 }
 
 // c05Singles runs the scenario on every record alone (in parallel processes) and returns, per stream, the outputs.
@@ -1186,9 +1236,14 @@ func (c05) Exec(c string) (string, []Fail) {
 		seen := map[string]bool{}
 		for _, site := range res.races {
 			stat("race-report")
-			if !seen[site] {
-				seen[site] = true
-				fails = append(fails, Fail{Sig: "race." + site, Text: "the Go race detector reports a data race between " + site + " (scenario " + sc.name + ")"})
+			if why := c05BenignRace(site); why != "" {
+				stat("race-benign:" + why)
+				continue
+			}
+			fsig := strings.SplitN(site, " @ ", 2)[0]
+			if !seen[fsig] {
+				seen[fsig] = true
+				fails = append(fails, Fail{Sig: "race." + fsig, Text: "the Go race detector reports a data race between " + site + " (scenario " + sc.name + ")"})
 			}
 		}
 		stat("race-run")
